@@ -161,7 +161,8 @@ def check(tg, lay, start, pdtype, hist, seed, zero_at=None):
                 msgs.append(f"step {t} mask {mask}: parameter {i} is not finite after the step")
         if gstep < start and not diverged:
             for i, (a, b) in enumerate(zip(params, tparams)):
-                scale = max(b.detach().abs().max().item(), 1e-30)
+                # scale: not smaller than the operands of the update (a 1-element parameter may cancel to ~0)
+                scale = max(b.detach().abs().max().item(), tbefore[i].abs().max().item(), 1e-30)
                 err = (a.detach() - b.detach()).abs().max().item() / scale
                 if not err <= tol:
                     msgs.append(f"warm-up step {t} (group step {gstep} < start {start}) mask {mask}: parameter {i} differs from torch.optim {tg['t']} twin by {err:.2e} (tol {tol:.1e})")
